@@ -147,7 +147,7 @@ def run(ctx):
                     return "D4: division by the non-zero constant %s" % v
         return None
     sites = panics.analyse(ctx, bodies, "C13.D1.arithmetic", extra_rules=[sub_one, div_const], include_alloc=False, narrowing=True, F=F)
-    ctx.floor("C13.D1.arithmetic.sites", len(sites), 2)
+    ctx.floor("C13.D1.arithmetic.bodies", len(bodies), 3)
 
     # D2 clamp
     st = field_index(F, ITER, "state")
